@@ -114,3 +114,14 @@ class Clock:
 def body_files(result):
     """{path: file entry} of a snapshot() return value."""
     return {f['path']: f for f in result.data['files']}
+
+
+def _assert_tree():
+    from .paths import REPO
+    have = os.path.realpath(repository_mod.__file__)
+    want = os.path.realpath(str(REPO))
+    if not have.startswith(want + os.sep):
+        raise RuntimeError(f'replicat imported from {have}, expected the tree at {want}')
+
+
+_assert_tree()
